@@ -125,6 +125,16 @@ def run_case(case, ctx):
     return {"nontrivial": bool(nontrivial), "labels": labels}
 
 
+def extra(tier, ctx, seed):
+    """Fixed schedules: every n_steps in a range, enumerated completely (float accumulation of 1/n is the risk)."""
+    top = 64 if tier == "quick" else 300
+    for n in range(1, top + 1):
+        case = {"ns": "numpy", "width": "float64", "n": 4, "kind": "generic", "dims": 1, "ll": [0.0, 0.5, -0.25, 0.125], "lq": [0.0, 0.0, 0.0, 0.0],
+                "kernel": "frozen", "kernel_steps": 1, "adaptive": False, "seed": int(seed), "route": "api", "n_steps": n, "part": "all-n_steps"}
+        ctx.cell(case, run_case)
+    return {"exhaustive_fixed_schedules": top, "exhaustive_note": f"every fixed schedule n_steps=1..{top} was run (4 particles, frozen kernel); the generated part is not exhaustive"}
+
+
 def _float_sum_lands_exact(n):
     b = 0.0
     step = 1 / n
